@@ -170,6 +170,7 @@ def case_lqr(H, n, mdim, Tn, ltv, with_c1, nominal, second_solve, mpc=False):
         for call in getattr(ctx, 'pinv_calls', []):
             if any(_nonzero_tol(call.get(kk)) for kk in ('atol', 'rtol')) or any(_nonzero_tol(a_) for a_ in (call.get('extra') or [])[:2]):
                 H.prove(name + '/linear-solves-without-truncation', [], z3.BoolVal(False), replay=replay_illcond, key='C14/LQR/conditioning')
+        no_downcast_ob(H, ctx, name, 'C14/LQR/precision', replay_precision)
         hyp = H.hyps_of(ctx)
         A = [T.mat(As[(t if ltv else 0) * n * n:((t if ltv else 0) + 1) * n * n], n, n) for t in range(Tn)]
         B = [T.mat(Bs[(t if ltv else 0) * n * mdim:((t if ltv else 0) + 1) * n * mdim], n, mdim) for t in range(Tn)]
@@ -201,6 +202,32 @@ def case_lqr(H, n, mdim, Tn, ltv, with_c1, nominal, second_solve, mpc=False):
         H.reach(name + '/reach', hyp)
 
 
+def replay_precision(model):
+    """float64 problem, nominal inputs far from the optimum: the returned inputs must be stationary for an independently rolled-out cost
+    to float64 accuracy (a single-precision detour of the control update leaves a gradient of ~1e-3)"""
+    gen = torch.Generator().manual_seed(5)
+    n, mdim, Tn = 2, 1, 3
+    r = lambda *s: torch.randn(*s, dtype=DT, generator=gen) * 0.5
+    A, Bm, x0, p = r(1, n, n), r(1, n, mdim), r(1, n), r(1, Tn, n + mdim)
+    L = r(1, Tn, n + mdim, n + mdim)
+    Q = L @ L.mT + torch.eye(n + mdim, dtype=DT)
+    z = lambda *s: torch.zeros(*s, dtype=DT)
+    worst = 0.0
+    for scale in (0.0, 1e3):
+        un = r(1, Tn, mdim) * scale
+        lqr = pp.module.LQR(pp.module.LTI(A, Bm, z(1, n, n), z(1, n, mdim)), Q, p, Tn)
+        x, u, c = lqr(x0, 1, u_traj=(un if scale else None))
+        uu = u.detach().clone().requires_grad_(True)
+        xt, cost = x0, 0
+        for t in range(Tn):
+            tau = torch.cat([xt, uu[:, t]], -1)
+            cost = cost + 0.5 * (tau.unsqueeze(-2) @ Q[:, t] @ tau.unsqueeze(-1)).sum() + (p[:, t] * tau).sum()
+            xt = (A @ xt.unsqueeze(-1)).squeeze(-1) + (Bm @ uu[:, t].unsqueeze(-1)).squeeze(-1)
+        gmax = torch.autograd.grad(cost, uu)[0].abs().max().item()
+        worst = max(worst, gmax)
+    return worst > 1e-7, 'float64 LQR: |dJ/du| = %.3g at the returned inputs (nominal inputs of magnitude 0 and 1e3)' % worst
+
+
 def case_lqr_config(H, n, mdim, Tn, B):
     """configurations of one LQR problem, differential against the single-item solve that the other cases verify:
     (a) a batch of B independent problems: item k of the batched result == the solve of problem k alone;
@@ -229,6 +256,12 @@ def case_lqr_config(H, n, mdim, Tn, B):
         for k in range(B):
             _, xk, uk, ck = solve(A[k:k + 1], Bm[k:k + 1], x0[k:k + 1], p[k:k + 1], Q[k:k + 1], None)
             pairs += [('batch item %d: states' % k, x[k], xk[0]), ('batch item %d: inputs' % k, u[k], uk[0]), ('batch item %d: cost' % k, c[k].reshape(1), ck.reshape(-1)[:1])]
+        # compact (time-invariant) weights Q:[B,n,n], p:[B,n], different for every batch item == the same weights spelled out per step
+        fac = torch.arange(1, B + 1, dtype=DT).view(B, 1, 1)
+        Qc, pc = Q[:, 0] * fac, p[:, 0]
+        _, xa, ua, ca = solve(A, Bm, x0, pc, Qc, None)
+        _, xb, ub, cb = solve(A, Bm, x0, pc.unsqueeze(1).repeat(1, Tn, 1), Qc.unsqueeze(1).repeat(1, Tn, 1, 1), None)
+        pairs += [('compact weights: states', xa, xb), ('compact weights: inputs', ua, ub), ('compact weights: cost', ca.reshape(-1), cb.reshape(-1))]
         buf = un.clone()
         lqr, _, _, _ = solve(A, Bm, x0, p, Q, buf)
         with torch.no_grad():
@@ -277,6 +310,7 @@ def case_lqr_config(H, n, mdim, Tn, B):
 
     for ctx, res in run_paths(H, name, prog, max_paths=8, raised=on_raise):
         hyp = H.hyps_of(ctx)
+        no_downcast_ob(H, ctx, '%s/path%d' % (name, H.paths), 'C14/LQR/config', replay_precision)
         for lab, a_, b_ in res:
             H.prove('%s/path%d/%s/same-length' % (name, H.paths, lab), [], z3.BoolVal(len(a_) == len(b_)), replay=replay, key='C14/LQR/config')
             for i, (l, r) in enumerate(zip(a_, b_)):
@@ -286,7 +320,7 @@ def case_lqr_config(H, n, mdim, Tn, B):
 def run(H):
     H.assumptions += ['exact real arithmetic', 'Q_t symmetric positive definite (Cholesky-parametrised): stationarity is then global optimality',
                       'torch.linalg.cholesky by its contract (L L^T = Quu on the non-raising path)']
-    H.bounds += ['batch 1 for the optimality clauses (batches of 2-3 problems and a re-used nominal buffer differentially against single solves); (n,m,T) in {(1,1,1),(1,1,2),(2,1,2)} quick, +(1,1,3),(1,2,2),(2,2,2) thorough', 'LTV: matrices indexed by the system clock',
+    H.bounds += ['batch 1 for the optimality clauses (batches of 2-3 problems, compact per-item weights and a re-used nominal buffer differentially against single / spelled-out solves; no precision-reducing cast of float64 data); (n,m,T) in {(1,1,1),(1,1,2),(2,1,2)} quick, +(1,1,3),(1,2,2),(2,2,2) thorough', 'LTV: matrices indexed by the system clock',
                  'second solve on the same system object (history of length 2)', 'MPC: linear system, 2 stepper iterations']
     cases = [(1, 1, 1, False, False, False, False), (1, 1, 2, False, True, True, False), (1, 1, 2, True, False, False, False),
              (1, 1, 2, True, False, False, True), (1, 1, 2, False, False, False, True), (2, 1, 2, False, True, False, False)]
